@@ -1,6 +1,7 @@
 mod c04;
 mod c04gen;
 mod arity;
+mod patcat;
 mod astdump;
 mod c01;
 mod c08;
